@@ -409,6 +409,16 @@ def rule_e(repo, chk):
                and src(n.ast.comparators[0]) == 'self.trusted_gateways']
     # (no look-up at all: the reads of X-Forwarded-Host are then unguarded, which is reported below)
     peers = set()
+    # (the look-up may be part of a test that is bound to a flag first: `trusted = gateways is None or peer in gateways … if trusted:`)
+    for nm_, def_ in g.flag_defs.items():
+        for w in ast.walk(def_):
+            if isinstance(w, ast.Compare) and len(w.ops) == 1 and isinstance(w.ops[0], (ast.In, ast.NotIn)) and src(w.comparators[0]) == 'self.trusted_gateways':
+                binds = [n for n in g.nodes if n.kind == 'stmt' and isinstance(n.ast, ast.Assign) and n.ast.value is def_]
+                if binds:
+                    peers.add(src(w.left))
+                    okp, why = _transport_peer(repo, h, binds[0], w.left, req)
+                    chk.ob('e', h.ref, 'the address looked up in the gateway list is the address of the transport peer (the socket\'s peer name), not a field of the request that '
+                                       'request handlers rewrite from headers', okp, loc(h, binds[0].ast), detail=why, discr='trust-reads-transport-peer')
     for n in members:
         left = n.ast.left
         peers.add(src(left))
